@@ -107,6 +107,9 @@ def make_inputs(ctx):
                 add(ci, cleaned, None, req)
                 last = rng.choice([x for x in INT_LAST if x != c])
                 add(ci, cleaned, None, [c, last])
+            if not cleaned or not ctx.quick():
+                for c in h5.shared_raw_members(ctx):
+                    add(ci, cleaned, None, [c])
             for pair in h5.shared_raw_pairs(ctx, ctx.quick()):
                 add(ci, cleaned, None, list(pair))
                 if not ctx.quick():
